@@ -589,8 +589,7 @@ func (hp *HTTPProxy) denyLocalhost() martian.RequestModifier {
 
 func (hp *HTTPProxy) denyDomains(r Matcher) martian.RequestModifier {
 	return martian.RequestModifierFunc(func(req *http.Request) error {
-		// Match the name as written by the client and the name the transport will connect to.
-		if h := req.URL.Hostname(); r.Match(h) || r.Match(asciiHostname(h)) {
+		if matchesAnyForm(r, req.URL.Hostname()) {
 			return ErrProxyDenied
 		}
 		return nil
@@ -625,7 +624,7 @@ func (hp *HTTPProxy) directLocalhost(fn ProxyFunc) ProxyFunc {
 }
 
 func (hp *HTTPProxy) isLocalhost(host string) bool {
-	host = strings.ToLower(asciiHostname(host))
+	host = strings.TrimSuffix(strings.ToLower(asciiHostname(host)), ".")
 
 	if slices.Contains(hp.localhost, host) {
 		return true
@@ -638,6 +637,13 @@ func (hp *HTTPProxy) isLocalhost(host string) bool {
 	}
 
 	return false
+}
+
+// matchesAnyForm matches the host name as written by the client and as the transport will connect to it (IDNA),
+// each also without the trailing dot of a fully qualified name: "evil.test." is the same host as "evil.test".
+func matchesAnyForm(r Matcher, host string) bool {
+	ascii := asciiHostname(host)
+	return r.Match(host) || r.Match(ascii) || r.Match(strings.TrimSuffix(host, ".")) || r.Match(strings.TrimSuffix(ascii, "."))
 }
 
 // asciiHostname returns the host name in the form the transport dials: net/http maps internationalized
